@@ -4,21 +4,21 @@ CONSTANTS
   Biases = {3, 4}
   Hidden = {7, 8}
   OutSet = {5, 6}
-  Shapes = {{1, 3, 5, 7}, {1, 3, 4, 5}}
-  Weights <- W1
+  Shapes = {{1, 5, 7}}
+  Weights <- W2
   TdFlags = {FALSE}
   InVals <- V2
-  OrderKinds = {"BIOH"}
-  ActSchemes <- SchemesQuick
-  LinkCaps = {3}
+  OrderKinds = {"IBOH", "IBHO"}
+  ActSchemes <- SchemesMixed
+  LinkCaps = {4}
   SealAtCap = FALSE
   Canonical = TRUE
   FwdKs = {1, 2}
   RelaxKs = {2}
   UseRec = TRUE
-  UseAct = FALSE
-  MaxHist = 2
-  MaxSuf = 2
+  UseAct = TRUE
+  MaxHist = 3
+  MaxSuf = 3
   Limit = 1000
   FlushWorks = TRUE
 INVARIANTS FlushRestores SuffixEqual
